@@ -308,3 +308,50 @@ Qed.
 Theorem clear_restores d : lim (clear_limit d) = None /\ limit_reached (clear_limit d) = false
   /\ rest (clear_limit d) = rest d /\ off (clear_limit d) = off d.
 Proof. repeat split. Qed.
+
+(** ---- the history-level reading: what is returned is what the ORIGINAL
+    buffer holds at the current offset (not merely a statement about the
+    model's unread suffix) ---- *)
+Lemma Inv_rest_is_skipn buf d : Inv buf d -> rest d = skipn (N.to_nat (off d)) buf.
+Proof.
+  intros [pre [-> Ho]]. rewrite <- Ho, Nat2N.id.
+  rewrite skipn_app, skipn_all, Nat.sub_diag. reflexivity.
+Qed.
+
+Theorem history_unread_is_buffer_from_offset buf qs :
+  let d := snd (serve_all (mkdec buf) qs) in rest d = skipn (N.to_nat (off d)) buf.
+Proof. cbv zeta. apply Inv_rest_is_skipn. apply serve_all_inv. apply Inv_init. Qed.
+
+Theorem history_word_is_buffer_word buf qs w d' :
+  let d := snd (serve_all (mkdec buf) qs) in
+  word d = (inl w, d') ->
+  exists b0 b1 b2 b3,
+    firstn 4 (skipn (N.to_nat (off d)) buf) = [b0; b1; b2; b3] /\
+    w = word_of_bytes b0 b1 b2 b3 /\ off d' = off d + 4 /\
+    off d' <= N.of_nat (length buf).
+Proof.
+  cbv zeta. intros Hw.
+  pose proof (history_unread_is_buffer_from_offset buf qs) as Hr. cbv zeta in Hr.
+  pose proof (serve_all_inv buf qs (mkdec buf) (Inv_init buf)) as Hinv.
+  pose proof (word_inv buf _ Hinv) as Hinv'. rewrite Hw in Hinv'. cbn [snd] in Hinv'.
+  destruct (word_ok _ _ _ Hw) as [b0 [b1 [b2 [b3 [Hrest [Hwv [Hoff _]]]]]]].
+  exists b0, b1, b2, b3. rewrite <- Hr, Hrest. cbn [firstn].
+  repeat split; try assumption. apply (Inv_off_le buf d' Hinv').
+Qed.
+
+Theorem history_string_is_buffer_string buf qs s d' :
+  let d := snd (serve_all (mkdec buf) qs) in
+  dstring d = (inl s, d') ->
+  exists i, index0 (skipn (N.to_nat (off d)) buf) = Some i /\
+            s = firstn i (skipn (N.to_nat (off d)) buf) /\
+            off d' = off d + 4 * (N.of_nat i / 4 + 1) /\
+            off d' <= N.of_nat (length buf).
+Proof.
+  cbv zeta. intros Hs.
+  pose proof (history_unread_is_buffer_from_offset buf qs) as Hr. cbv zeta in Hr.
+  pose proof (serve_all_inv buf qs (mkdec buf) (Inv_init buf)) as Hinv.
+  pose proof (string_inv buf _ Hinv) as Hinv'. rewrite Hs in Hinv'. cbn [snd] in Hinv'.
+  destruct (string_ok _ _ _ Hs) as [i [Hi [Hsv [_ [_ H]]]]]. cbv zeta in H.
+  destruct H as [_ [_ [Hoff _]]].
+  exists i. rewrite <- Hr. repeat split; try assumption. apply (Inv_off_le buf d' Hinv').
+Qed.
